@@ -28,7 +28,9 @@ REPLAY = ("cd /verif && echo '[{\"src\": <program text as JSON string>, \"return
 
 
 def generate(ctx):
-    # no generated Coq: the builder model is hand-written (tie X); fail closed if the anchors moved
+    import tr_unpack
+    ctx.gen("GenUnpack.v", tr_unpack.translate(ctx.int_src("compiler/stmt_compiler.py")))
+    # the builder model is hand-written (tie X); fail closed if the anchors moved
     src = ctx.int_src("cfg/builder.py").read_text()
     for needle in ("class CFGBuilder", "class ExprBuilder", "class BranchBuilder", "def visit_While", "def add_branch"):
         if needle not in src:
@@ -62,6 +64,21 @@ def run(ctx):
         ctx.report("model-build", "proof-broken", "coq/C03 model files do not compile",
                    {"coq_error": vlib.CoqResult(False, info["log"]).error_excerpt()}, found_input=False)
         return ctx.finish(LEVEL, proof_coverage(info, "make C03/Props.vo", [], evaluations=0, distinct_nontrivial=0), [])
+
+    # ------------------------------------------------------------------ unpacking assignments
+    import unpack_tie
+    ustats, uviol = unpack_tie.run(ctx)
+    ucex = [v for v in uviol if v["kind"] == "counterexample"]
+    ucex.sort(key=lambda v: len(v["program"]))
+    for v in (ucex[:2] if ucex else uviol[:1]):
+        if v["kind"] == "counterexample":
+            ctx.report("unpack:" + v["program"], "counterexample",
+                       "array unpacking binds other elements than Python (StmtCompiler._assign_array)",
+                       {**v, "replay": "compile the program with the tree under test (import repo_shim first) and read the pop ops "
+                                       "wired to the returned variables, e.g. props/C19/impl_seq.py with {source, funcs}"})
+        else:
+            ctx.report("unpack-tie:" + v.get("program", v.get("what", "")), "correspondence",
+                       "unpack tie: " + v["kind"], v, found_input=False)
 
     progs = load_fixed(ctx)
     n_fixed = len(progs)
@@ -145,7 +162,8 @@ def run(ctx):
                         "meaning": "the real builder no longer produces the CFG the proved model produces; no input was found on which a program of the safe fragment misbehaves",
                         "replay": REPLAY}, found_input=False)
 
-    if not info["ok"]:
+    if not info["ok"] and not any(v.get("found_failing_input") for v in ctx.violations):
+        # (when a concrete failing input was found above, that is the report for the broken proof)
         ctx.report("proof-broken:" + str(info["failed"]), "proof-broken", str(info["failed"]),
                    {"coq_error": vlib.CoqResult(False, info["log"]).error_excerpt()}, found_input=False)
 
@@ -165,6 +183,7 @@ def run(ctx):
         in_safe_fragment=sum(1 for p in progs if p.get("safe")), in_proved_fragment=sum(1 for p in progs if p.get("frag")),
         in_proved_lifted_fragment=sum(1 for p in progs if p.get("lsafe")),
         semantic_runs=sum(len(v) for v in sem.values()), semantic=dict(sem_stat),
+        unpack_tie=ustats,
         construct_histogram=dict(sorted(hist.items())), samples=samples, notes=ctx.notes)
     return ctx.finish(LEVEL, cov, [
         "statement-level meaning inside basic blocks is Python's (gap to HUGR lowering stated in NOTES.md)",
